@@ -43,13 +43,15 @@ def main():
     rc2, o2 = sh("cargo test --features devices --no-fail-fast --offline 2>&1", cwd=wt)
     shutil.move("/tmp/seeded_demo_aside.rs", demo)
     meta["suite_passes_with_change"] = tests_ok(o1) and tests_ok(o2)
-    rc3, o3 = sh("cargo test %s --offline --test seeded_demo 2>&1" % feat, cwd=wt)
-    meta["demo_fails_with_change"] = not tests_ok(o3) and "test result" in o3
+    demo_cmd = os.environ.get("SEEDED_DEMO_CMD") or ("cargo test %s --offline --test seeded_demo" % feat)
+    meta["demo_cmd"] = demo_cmd
+    rc3, o3 = sh(demo_cmd + " 2>&1", cwd=wt)
+    meta["demo_fails_with_change"] = rc3 != 0 and ("test result" in o3 or "Undefined Behavior" in o3 or "panicked" in o3)
     # (git stash is shared between worktrees: use checkout / apply instead)
     sh("git checkout -- src Cargo.toml", cwd=wt)
-    rc4, o4 = sh("cargo test %s --offline --test seeded_demo 2>&1" % feat, cwd=wt)
+    rc4, o4 = sh(demo_cmd + " 2>&1", cwd=wt)
     sh("git apply patch.diff", cwd=wt)
-    meta["demo_passes_without_change"] = tests_ok(o4)
+    meta["demo_passes_without_change"] = rc4 == 0 and tests_ok(o4)
     meta["ran"] += ["cargo test --workspace --no-fail-fast --offline (with change)", "cargo test --features devices --no-fail-fast --offline (with change)",
                     "cargo test %s --offline --test seeded_demo (with change, then with the change reverted)" % feat]
     dest = os.path.join(V, "seeded", name)
